@@ -1085,7 +1085,8 @@ helperHandleRead(const Comm::ConnectionPointer &conn, char *, size_t len, Comm::
                         ++msg;
                 } // else not enough data to compute request number
             }
-            if (!(srv->replyXaction = srv->popRequest(i))) {
+            // wait for the complete channel number before looking its request up
+            if (!needsMore && !(srv->replyXaction = srv->popRequest(i))) {
                 if (srv->stats.timedout) {
                     debugs(84, 3, "Timedout reply received for request-ID: " << i << " , ignore");
                 } else {
